@@ -106,6 +106,11 @@ class Tmatrix(ScatteringTheory):
         else:
             raise TheoryNotCompatibleError(self, scatterer)
 
+        # non-positive dimensions reach the compiled code as negative or
+        # complex sizes and crash the process
+        if not (np.ndim(rxy) == 0 and np.ndim(rz) == 0 and rxy > 0 and
+                rz > 0):
+            raise InvalidScatterer(scatterer, "dimensions must be positive")
         axi = (3/2)**iscyl*(rz*rxy**2)**(1/3.)
         # the compiled code handles size parameters up to about 180; far
         # beyond that its integer arithmetic overflows and the process
